@@ -658,6 +658,7 @@ static void pack_grid()
         1.f - FLT_EPSILON / 2, 1.f, 1.f + FLT_EPSILON, 2.f, 255.f, FLT_MAX, INFINITY};
     A.assign(q, q + sizeof q / sizeof q[0]);
   }
+  std::stable_sort(A.begin(), A.end());  // the monotonicity check walks the alphabet in value order
   check_pack_monotone(A);
   const size_t n = A.size();
   std::vector<PackAcc> acc(n);
